@@ -266,7 +266,7 @@ def _ts_value(draw, present, allow_dt):
     t += draw(st.sampled_from([0, 0, 0, 250000, -250000, 1, -1, 10 ** 6, -10 ** 6, 500000]))
     t = min(max(t, tsref.instant(1000, 1, 1)), tsref.instant(9998, 12, 31))
     text = respell(t, draw(st.integers(0, 3)))
-    if allow_dt and draw(st.integers(0, 2)) == 0:
+    if allow_dt and draw(st.booleans()):
         return {"$dt": text}
     return text
 
@@ -305,7 +305,8 @@ def property_filter(draw, objs, dt_ok=True, no_ts=False):
     vals = present_values(objs, path)
     if kind in ("ts", "ts2"):
         op = draw(st.sampled_from(["=", "!=", "<", "<=", ">", ">=", "<", ">", "=", "in"]))
-        tv = _ts_value([v for v in vals if M.is_ts(v)], dt_ok and kind == "ts2")
+        # a datetime instance is only type-compatible with parsed timestamps: not where a dictionary-kept object carries the property
+        tv = _ts_value([v for v in vals if M.is_ts(v)], dt_ok and not any(is_dict_kept(o) and path in o for o in objs))
         if op == "in":
             return {"prop": path, "op": op, "value": draw(st.lists(_ts_value([v for v in vals if M.is_ts(v)], False), max_size=3))}
         return {"prop": path, "op": op, "value": draw(tv)}
@@ -332,12 +333,87 @@ def property_filter(draw, objs, dt_ok=True, no_ts=False):
     return {"prop": path, "op": op, "value": draw(sv)}
 
 
+def _clamp(t):
+    return min(max(t, tsref.instant(1000, 1, 1)), tsref.instant(9998, 12, 31))
+
+
+@st.composite
+def aimed_filter(draw, objs, target, type_id, dt_ok=True, no_ts=False):
+    """A filter that holds for `target` (one stored object): keeps conjunctions from being empty all the time."""
+    if type_id:
+        which = draw(st.sampled_from(["type", "id"]))
+        v = target[which]
+        others = sorted({o[which] for o in objs if o[which] != v}) + (ALL_TYPES + ["campaign"] if which == "type" else ALL_IDS + [oid("campaign", 1)])
+        others = [x for x in others if x != v]
+        op = draw(st.sampled_from(["=", "=", "in", "in", "!=", "!=", ">=", "contains"]))
+        if op == "in":
+            value = draw(st.lists(st.sampled_from(others), max_size=3))
+            value.insert(draw(st.integers(0, len(value))), v)
+        elif op == "!=":
+            value = draw(st.sampled_from(others))
+        elif op == "contains":
+            a = draw(st.integers(0, len(v) - 1))
+            value = v[a:a + draw(st.integers(1, 12))]
+        else:
+            value = v
+        return {"prop": which, "op": op, "value": value}
+    paths = [p for p in sorted(PATHS) if not (no_ts and PATHS[p] in ("ts", "ts2")) and M._final_values(target, p.split("."))]
+    if not paths:
+        return draw(aimed_filter(objs, target, True))
+    path = draw(st.sampled_from(paths))
+    kind = PATHS[path]
+    v = draw(st.sampled_from(M._final_values(target, path.split("."))))
+    others = [x for x in present_values(objs, path) if x != v and type(x) is type(v)]
+    if kind in ("ts", "ts2"):
+        t = M.instant(v)
+        op = draw(st.sampled_from(["=", "<=", ">=", "<", ">", "!=", "in"]))
+        delta = draw(st.sampled_from([1, 250000, 500000, 10 ** 6]))
+        t2 = _clamp({"<": t + delta, ">": t - delta, "!=": t + delta}.get(op, t))
+        if t2 == t and op in ("<", ">", "!="):
+            op = "="
+        text = respell(t2, draw(st.integers(0, 3)))
+        if op == "in":
+            return {"prop": path, "op": op, "value": [text] + [respell(_clamp(t + 7), 0)] * draw(st.integers(0, 1))}
+        if dt_ok and draw(st.booleans()) and not any(is_dict_kept(o) and path in o for o in objs):
+            return {"prop": path, "op": op, "value": {"$dt": text}}
+        return {"prop": path, "op": op, "value": text}
+    if kind == "bool":
+        op = draw(st.sampled_from(["=", "!=", "in"]))
+        return {"prop": path, "op": op, "value": v if op == "=" else (not v) if op == "!=" else [v]}
+    if kind == "int":
+        op = draw(st.sampled_from(["=", "in", "<=", ">=", "<", ">", "!="]))
+        value = {"<": v + 1, ">": v - 1, "!=": v + 1, "in": [v] + others[:1]}.get(op, v)
+        return {"prop": path, "op": op, "value": value}
+    ops = ["=", "=", "in", "contains"] + (["<=", ">=", "<", ">", "!="] if kind == "str" else [])
+    op = draw(st.sampled_from(ops))
+    if op == "in":
+        value = draw(st.lists(st.sampled_from(others + [ABSENT_STR]), max_size=2))
+        value.insert(draw(st.integers(0, len(value))), v)
+    elif op == "contains" and kind != "list":
+        a = draw(st.integers(0, len(v) - 1))
+        value = v[a:a + draw(st.integers(1, 8))]
+    elif op == "<":
+        value = v + "z"
+    elif op == ">":
+        value = v[:-1] if len(v) > 1 else " "
+    elif op == "!=":
+        value = draw(st.sampled_from(others + [ABSENT_STR]))
+    else:
+        value = v
+    return {"prop": path, "op": op, "value": value}
+
+
 @st.composite
 def filter_set(draw, objs, min_size=0, max_size=5, type_id_weight=2, dt_ok=True, no_ts=False):
-    n = draw(st.integers(min_size, max_size))
+    """0-5 filters; three times out of four most of them are aimed at one stored object so that conjunctions have answers."""
+    n = draw(st.sampled_from([k for k in (0, 1, 1, 2, 2, 2, 3, 3, 4, 5) if min_size <= k <= max_size]))
+    target = draw(st.sampled_from(objs)) if objs and draw(st.integers(0, 3)) else None
     out = []
     for _ in range(n):
-        if draw(st.integers(0, 4)) < type_id_weight:
+        type_id = draw(st.integers(0, 4)) < type_id_weight
+        if target is not None and draw(st.integers(0, 4)):
+            out.append(draw(aimed_filter(objs, target, type_id, dt_ok, no_ts)))
+        elif type_id:
             out.append(draw(type_or_id_filter(objs)))
         else:
             out.append(draw(property_filter(objs, dt_ok, no_ts)))
